@@ -1379,11 +1379,57 @@ int probe_splitters(const splitter_t& a, const splitter_t& b)
     return probe<splitter_t>(a, b);
 }
 
+// the step-initialisation strategies keep a history between calls (previous value / slope): the probe makes three calls with
+// fixed inputs on each object and compares every answer bit by bit; it LEAVES THE OBJECTS USED, so a clone taken after a probe
+// is a clone of a used object and must continue like the original (seeded change C19-d3)
+std::vector<double> use_lsearch0(lsearch0_t& lsearch0)
+{
+    const auto function = function_t::all().get("sphere")->make(3, 10);
+    vector_t   x(3);
+    x(0) = 1.0;
+    x(1) = -2.0;
+    x(2) = 0.5;
+    std::vector<double> answers;
+    // a non-negative last step size: the strategies then read the history of the previous call (a first call, last < 0, does not)
+    auto                last = 0.25;
+    for (int call = 0; call < 3; ++call)
+    {
+        const auto state = solver_state_t{*function, x};
+        vector_t descent(3);
+        for (tensor_size_t i = 0; i < 3; ++i)
+        {
+            descent(i) = -state.gx()(i) * (1.0 + 0.25 * call);
+        }
+        const auto     t0      = lsearch0.get(state, descent, last);
+        answers.push_back(t0);
+        last = 0.125 * (call + 1);
+        for (tensor_size_t i = 0; i < 3; ++i)
+        {
+            x(i) += last * descent(i);
+        }
+    }
+    return answers;
+}
+
+int probe_lsearch0(lsearch0_t& a, lsearch0_t& b)
+{
+    if (&a == &b)
+    {
+        use_lsearch0(a);
+        return 1;
+    }
+    return same_doubles(use_lsearch0(a), use_lsearch0(b)) ? 1 : 0;
+}
+
 int probe_vars(const var_t& a, const var_t& b)
 {
     if (a.kind != b.kind)
     {
         throw bad_op("probe of different kinds");
+    }
+    if (a.kind == "lsearch0")
+    {
+        return probe_lsearch0(*a.lsearch0, *b.lsearch0);
     }
     if (a.kind == "solver")
     {
